@@ -33,14 +33,6 @@
 /* "old body word g_k/4 (if g_k is a word start below word index lim) has no high bit" */
 #define RR_NO_END_BELOW(lim) (((g_k & 3) == 0 && (g_k >> 2) < (size_t) (lim)) ==> !RR_HB(g_b))
 
-/* ghost-index case split: -DRR_GK_LOW: g_k < 64 (can be a header byte), -DRR_GK_HIGH: g_k >= 64 */
-#if defined(RR_GK_LOW)
-#define RR_GK_CASE (g_k < 64)
-#elif defined(RR_GK_HIGH)
-#define RR_GK_CASE (g_k >= 64)
-#else
-#define RR_GK_CASE (1)
-#endif
 #define RR_TTL_OK(t) ((t) >= 1 && (t) <= NNI_MAX_MAX_TTL)
 
 /* ghost equations binding the pre-state geometry of the body (used by the woven loop invariant) */
@@ -57,16 +49,23 @@
 	    __CPROVER_same_object((msg)->m_body.ch_buf, (msg)->m_body.ch_ptr) && CH_FULL_SCALAR(&(msg)->m_body) && \
 	    (((msg)->m_body.ch_len != 0) ==> CH_OFF(&(msg)->m_body) == g_off0 + 4 * (size_t) (i)) && \
 	    RR_LOOP_INV_BYTES(msg, i, h0))
-#ifdef RR_SKIP_BYTES
-#define RR_LOOP_INV_BYTES(msg, i, h0) (1)
-#else
-#ifdef RR_T_NOHDR
-#define RR_LI_H(msg, i, h0) (1)
-#else
-#define RR_LI_H(msg, i, h0) ((g_k < 4 * (size_t) (i)) ==> HDR(msg)[(h0) + g_k] == g_b)
+/* RR_TRACK selects how much of the ghost byte (g_k, g_b) the invariant carries:
+ *   2 (default) everything; 1 body side only (enough for the class facts and the
+ *   unchanged rest of the body); 0 nothing (control flow and scalar facts only).
+ * A unit states only the postconditions its level supports; the levels are a
+ * split of the POSTCONDITIONS over units, every unit still runs for all inputs. */
+#ifndef RR_TRACK
+#define RR_TRACK 2
 #endif
+#if RR_TRACK == 0
+#define RR_LOOP_INV_BYTES(msg, i, h0) (1)
+#elif RR_TRACK == 1
 #define RR_LOOP_INV_BYTES(msg, i, h0)                                      \
-	(RR_LI_H(msg, i, h0) &&        \
+	(((g_k >= 4 * (size_t) (i) && g_k < g_len0) ==> (msg)->m_body.ch_ptr[g_k - 4 * (size_t) (i)] == g_b) && \
+	    RR_NO_END_BELOW(i))
+#else
+#define RR_LOOP_INV_BYTES(msg, i, h0)                                      \
+	(((g_k < 4 * (size_t) (i)) ==> HDR(msg)[(h0) + g_k] == g_b) &&        \
 	    ((g_k >= 4 * (size_t) (i) && g_k < g_len0) ==> (msg)->m_body.ch_ptr[g_k - 4 * (size_t) (i)] == g_b) && \
 	    RR_NO_END_BELOW(i))
 #endif
